@@ -31,7 +31,7 @@ string[] as = ["x"]; const string[] cas = ["y"];
 """
 
 ATOMS = [
-    '5', '300', '-1', "'c'", 'true', '"str"', '[]', '[1, 2]', "['a', 'b']", "[1, 'a']", '[vi, 2]', '[vy]', '[vy, 1]', '[true]', '["a"]', '[vi, vb]', '[[1]]',
+    '5', '300', '-1', "'c'", 'true', '"str"', '[]', '[1, 2]', "['a', 'b']", "[1, 'a']", '[vi, 2]', '[vy]', '[vy, 1]', '[true]', '["a"]', '[vi, vb]', '[[1]]', '[vy, vi, 1]', '[vy, vi]', "[1, vi, 'a']", '[vy, 1, vi]', "['a', 300]",
     'vi', 'ci', 'vy', 'cy', 'vb', 'cb', 'vs', 'cs', 'ai', 'cai', 'ay', 'cay', 'ab', 'cab', 'as', 'cas', 'gi', 'gci', 'gai', 'gcai',
     '1 + 2', 'vi + 1', 'vy + 1', 'vy + vy', "'a' * 2", '-vy', '+5', 'ci + 1', '1 + ci',
     'vi is byte', 'vy is int', 'vi is bool', 'vs is bool', 'ai is bool', 'vb is int', 'vb is byte', 'vs is byte[]', 'vs is int', 'vi is string',
